@@ -8,10 +8,14 @@ PROP = {
          'extra signature appended, high-s twin, reordered multisig signatures, another sufficient signer subset of a 2-of-3 multisig account; standalone, inside a box, twice in one block; at chain times from now to the tx\'s expiration (and one second '
          'before). Two fixed edge histories replay the first block\'s txs in the last 60 s of their 1800 s life with the stable pointer right behind the head. Oracle: for every accepted '
          'block, no (signing hash, sender) identity is already on its ancestor path or twice in it; block time <= expiration <= block time + 30 min; a fork-only tx is accepted on the '
-         'main fork. distinct = (deputies, length, span); non-trivial = history spanning more than 30 min of chain time',
+         'main fork. Fork-switch histories (3..5 deputies): 3..7 signed transfers are placed independently on two forks (absent / on its own / in box A / in box B), '
+         'part of them reach the victim\'s real pool by gossip (guard asked first, like the network handler); the victim follows fork x, then the longer fork y, in half of '
+         'the histories x again after it grew; after every accepted block the selection pool.GetTxs hands the node\'s own miner (MineBlock does not consult the replay '
+         'guard) must contain no identity already on the current branch, and the block the assembler mines from it is judged like an accepted block. '
+         'distinct = (deputies, length, span) resp. (deputies, fork lengths, placements); non-trivial = history spanning more than 30 min of chain time resp. with a fork switch',
  'assumptions': ['signed identity = the signing hash the repository itself defines (all signed fields, not the signature list) + sender',
                  'attack blocks are produced by the real miner path on a helper node, which executes whatever candidates it is given'],
  'min_cases': {'quick': 50, 'thorough': 1200},
- 'min_stats': {'quick': {'attack_blocks_offered': 1500, 'identities_checked': 3000, 'stabilisations': 800}},
+ 'min_stats': {'quick': {'attack_blocks_offered': 1500, 'identities_checked': 3000, 'stabilisations': 800, 'fork_switches': 30, 'own_miner_selections_judged': 200, 'gossip_txs_pooled': 80}},
  'timeout_s': {'quick': 900, 'thorough': 10800},
 }
